@@ -7,6 +7,7 @@ is evaluated inside Coq on the same relation, output bits and iteration
 orders, and compared as truth tables (SynthCheck.check_instance).
 """
 import json
+import os
 
 from vlib import core, codegen_synth as cs
 from vlib.core import Broken, Mismatch, Failing
@@ -29,9 +30,22 @@ ASPECTS = ['which bits get a function (set(vrs) & support)',
            'care_set', 'function', 'assertions of make_functions']
 
 
+
+def _count_theory_lemmas(ctx, names):
+    """Lemmas of the hand-written proof files (already checked by the build
+    of THEORIES) are obligations of this check too."""
+    for nm in names:
+        rel = f'theories/L7Codegen/{nm}.v'
+        with open(os.path.join(core.COQ, rel)) as f:
+            found = core.theorem_names(f.read())
+        ctx.obligations += [f'{rel}:{x}' for x in found]
+        ctx.discharged += len(found)
+
+
 def prove(ctx):
     with ctx.coq_lock():
         ctx.prove('Properties/C14.v')
+    _count_theory_lemmas(ctx, ['PredFacts', 'SynthProofs'])
     ctx.trusted.append(
         'dd.cudd.restrict enters only through its contract (result agrees '
         'with its argument on care; support within support(p) | '
